@@ -4,8 +4,9 @@
  * Hook H2 instantiates the reader at tiny constants (-DVERIF_PRCHUNK_NLINES/LLEN/CHUNK),
  * so that the line-limit seam and the window seam are reached by streams of a
  * dozen bytes.  prchunk.c is compiled into this translation unit with read(),
- * mmap() and munmap() redefined: the window lives in a block whose both ends
- * are poisoned for ASan (exact size), read() is answered from a script.
+ * mmap() and munmap() redefined: the window sits directly behind an
+ * inaccessible page (an access before it faults, is noted, and the run goes
+ * on) and is followed by ASan-poisoned bytes; read() is answered from a script.
  *
  * Search: for every byte stream over {x, \n, \r} up to the bound, depth-first
  * over every answer read() may give (1..min(CHUNK, rest) bytes while bytes are
@@ -21,14 +22,17 @@
  * Oracle: the lines delivered are the stream split at \n (an unterminated
  * non-empty rest is the last line; a \r directly before the \n may be dropped
  * -- the reader's CRLF handling -- but then for every composition alike):
- * nothing lost, duplicated, split, merged or altered; line pointers inside the
- * window; read() never stores outside the window; no ASan report; terminates.
+ * nothing lost, duplicated, split, merged or altered; every line NUL
+ * terminated (the tools' parsers run on to the NUL); line pointers inside the
+ * window; read() never stores outside the window; no access outside the
+ * window; terminates.
  *
- * Transfer: the smallest case of every class is scaled to the stock constants
- * (tiny line i -> the stock lines [i*16384/N, (i+1)*16384/N) with the same
- * content, byte runs of over-long lines scaled by window/window) and replayed
- * through the stock dconv binary of the same build (`dconv -S`); the literal
- * shell command goes into the replay record. */
+ * Transfer: the smallest case of every class (one per class and run, by the
+ * worker that holds it) is scaled to the stock constants -- line structure
+ * x 16384/lines and x-runs x 1024/LLEN, or, for the window seam, byte geometry
+ * x 16 MiB/window -- and replayed through the stock dconv -S of the same build
+ * through a pipe (short reads of the tiny run become piece boundaries); the
+ * verdict and a literal shell command go into the record. */
 #include "explore.h"
 #include <stddef.h>
 #include <fcntl.h>
@@ -581,7 +585,7 @@ run_once(void)
 		if (rc == 1) {
 			report("hang", "no progress inside the reader");
 		} else if (rc == 2) {
-			report("crash", "fatal signal inside the reader");
+			report("crash", "fatal signal inside the reader (SIGSEGV/SIGBUS/SIGFPE/SIGABRT, or SIGILL = the bounds trap of an array index)");
 		}
 	}
 	ex_armed = 0;
@@ -1052,6 +1056,11 @@ main(int argc, char *argv[])
 		sa.sa_sigaction = segv_handler;
 		sa.sa_flags = SA_SIGINFO | SA_NODEFER;
 		sigaction(SIGSEGV, &sa, NULL);
+		/* the trap of -fsanitize=bounds (an index beyond loff[]) is an observation of the case too */
+		memset(&sa, 0, sizeof(sa));
+		sa.sa_handler = ex_wd_fatal;
+		sa.sa_flags = SA_NODEFER;
+		sigaction(SIGILL, &sa, NULL);
 	}
 	maxlen = ex.thorough ? C18_THORO_LEN : C18_QUICK_LEN;
 
@@ -1070,8 +1079,8 @@ main(int argc, char *argv[])
 		return ex_replay_result(replay_fails != 0, "%s", replay_fails ? replay_key : "no violation");
 	}
 
-	ex_meta("rule", "src/prchunk.c instantiated at (max lines %d, window %d bytes, chunk %d) by hook H2, read()/mmap() redefined (window with ASan-poisoned "
-		"surroundings); every byte stream over {x,\\n,\\r} up to the bound x EVERY sequence of read() answers (1..min(chunk,rest) bytes, then 0 = EOF); "
+	ex_meta("rule", "src/prchunk.c instantiated at (max lines %d, window %d bytes, chunk %d) by hook H2, read()/mmap() redefined (window behind an inaccessible page and "
+		"followed by ASan-poisoned bytes); every byte stream over {x,\\n,\\r} up to the bound x EVERY sequence of read() answers (1..min(chunk,rest) bytes, then 0 = EOF); "
 		"depth-first with hashing of (prch_ctx fields, line offsets, window bytes, read destination, unread input, lines delivered) at each read(): a state "
 		"seen before for the stream is not expanded again, a state seen on the same path is a cycle; consumer = the tools' loop fill/haslinep/getline plus "
 		"the newline store line[llen]='\\n' of the copy-through; oracle: delivered lines == stream split at \\n (unterminated non-empty rest is the last "
